@@ -38,10 +38,17 @@ func CopyTo(src any, dst any) error {
 	srcValue := reflect.ValueOf(src).Elem()
 	dstValue := reflect.ValueOf(dst).Elem()
 
-	return copyStruct(srcTyp, srcValue, dstTyp, dstValue)
+	return copyStruct(srcTyp, srcValue, dstTyp, dstValue, map[visitedPtr]struct{}{})
 }
 
-func copyStruct(srcTyp reflect.Type, srcValue reflect.Value, dstTyp reflect.Type, dstValue reflect.Value) error {
+// visitedPtr 标识当前递归路径上已经进入的 src 指针，用于发现环形引用的值
+type visitedPtr struct {
+	ptr uintptr
+	typ reflect.Type
+}
+
+func copyStruct(srcTyp reflect.Type, srcValue reflect.Value, dstTyp reflect.Type, dstValue reflect.Value,
+	visiting map[visitedPtr]struct{}) error {
 	srcFieldNameIndex := make(map[string]int, 0)
 	for i := 0; i < srcTyp.NumField(); i++ {
 		fTyp := srcTyp.Field(i)
@@ -57,7 +64,7 @@ func copyStruct(srcTyp reflect.Type, srcValue reflect.Value, dstTyp reflect.Type
 			continue
 		}
 		if idx, ok := srcFieldNameIndex[fTyp.Name]; ok {
-			if err := copyStructField(srcTyp, srcValue, dstTyp, dstValue, idx, i); err != nil {
+			if err := copyStructField(srcTyp, srcValue, dstTyp, dstValue, idx, i, visiting); err != nil {
 				return err
 			}
 		}
@@ -71,7 +78,8 @@ func copyStructField(
 	dstTyp reflect.Type,
 	dstValue reflect.Value,
 	srcFieldIndex int,
-	dstFieldIndex int) error {
+	dstFieldIndex int,
+	visiting map[visitedPtr]struct{}) error {
 
 	srcFieldType := srcTyp.Field(srcFieldIndex)
 	dstFieldType := dstTyp.Field(dstFieldIndex)
@@ -85,13 +93,20 @@ func copyStructField(
 		if srcFieldValue.IsNil() {
 			return nil
 		}
+		// 环形引用的值（例如 n.Next = n）会让递归无法结束直至栈溢出，这里返回错误
+		visit := visitedPtr{ptr: srcFieldValue.Pointer(), typ: srcFieldType.Type}
+		if _, ok := visiting[visit]; ok {
+			return newErrCyclicValue(srcFieldType.Name)
+		}
+		visiting[visit] = struct{}{}
+		defer delete(visiting, visit)
 		if dstFieldValue.IsNil() {
 			dstFieldValue.Set(reflect.New(dstFieldType.Type.Elem()))
 		}
-		return copyData(srcFieldType.Type.Elem(), srcFieldValue.Elem(), dstFieldType.Type.Elem(), dstFieldValue.Elem(), srcFieldType.Name)
+		return copyData(srcFieldType.Type.Elem(), srcFieldValue.Elem(), dstFieldType.Type.Elem(), dstFieldValue.Elem(), srcFieldType.Name, visiting)
 	}
 
-	return copyData(srcFieldType.Type, srcFieldValue, dstFieldType.Type, dstFieldValue, srcFieldType.Name)
+	return copyData(srcFieldType.Type, srcFieldValue, dstFieldType.Type, dstFieldValue, srcFieldType.Name, visiting)
 }
 
 func copyData(
@@ -100,6 +115,7 @@ func copyData(
 	dstTyp reflect.Type,
 	dstValue reflect.Value,
 	fieldName string,
+	visiting map[visitedPtr]struct{},
 ) error {
 	if srcTyp.Kind() == reflect.Pointer {
 		return newErrMultiPointer(fieldName)
@@ -117,7 +133,7 @@ func copyData(
 			dstValue.Set(srcValue)
 		}
 	} else if srcTyp.Kind() == reflect.Struct {
-		return copyStruct(srcTyp, srcValue, dstTyp, dstValue)
+		return copyStruct(srcTyp, srcValue, dstTyp, dstValue, visiting)
 	}
 	return nil
 }
